@@ -29,6 +29,7 @@ fn main() {
         "C17" => rtcmon::engines::lifecycle::run(&args),
         "C07" => rtcmon::engines::totality::run(&args),
         "C10" => rtcmon::engines::lattice::run(&args),
+        "C20" => rtcmon::engines::track_hist::run(&args),
         other => {
             eprintln!("unknown property/engine {other}");
             2
